@@ -42,7 +42,7 @@ func genCase(t *rapid.T) Case {
 	c := Case{NSrc: rapid.IntRange(1, 3).Draw(t, "nsrc"), TTL: rapid.SampledFrom([]int{1, 60}).Draw(t, "ttl"), Preload: rapid.Bool().Draw(t, "preload")}
 	c.NPid = rapid.OneOf(rapid.IntRange(2, 6), rapid.IntRange(2, 40)).Draw(t, "npid")
 	n := rapid.IntRange(5, 40).Draw(t, "nsteps")
-	ops := []string{"set", "set", "set", "set", "del", "failnext", "refresh", "refresh", "refresh", "refreshcancel", "refreshconc", "refreshconccancel", "get", "get", "get", "list", "advance", "advance"}
+	ops := []string{"set", "set", "set", "set", "del", "failnext", "refresh", "refresh", "refresh", "refreshcancel", "refreshconc", "refreshconccancel", "refreshduringmiss", "get", "get", "get", "list", "advance", "advance"}
 	for i := 0; i < n; i++ {
 		s := step{Op: rapid.SampledFrom(ops).Draw(t, "op")}
 		s.Src = rapid.IntRange(0, c.NSrc-1).Draw(t, "src")
@@ -81,7 +81,7 @@ type rec struct {
 var pids []peer.ID
 
 func init() {
-	for i := 0; i < 64; i++ {
+	for i := 0; i < 200; i++ {
 		// deterministic identity-free peer IDs (sha2-256 multihash of a counter)
 		b := []byte{0x12, 0x20}
 		for j := 0; j < 32; j++ {
@@ -109,6 +109,7 @@ type source struct {
 	cancelIn  context.CancelFunc // FetchAll cancels the caller's context and returns its error
 	parkIn    chan struct{}      // FetchAll waits here first
 	parkedSig chan struct{}
+	parkFetch, parkFetchSig chan struct{} // Fetch waits here first
 	fetchAll  int
 	fetch     int
 	bgCalls   int // FetchAll calls answered for an uncancellable context
@@ -163,6 +164,14 @@ func (s *source) FetchAll(ctx context.Context) ([]*model.ProviderInfo, error) {
 }
 
 func (s *source) Fetch(ctx context.Context, pid peer.ID) (*model.ProviderInfo, error) {
+	s.mu.Lock()
+	park, sig := s.parkFetch, s.parkFetchSig
+	s.parkFetch, s.parkFetchSig = nil, nil
+	s.mu.Unlock()
+	if park != nil {
+		close(sig)
+		<-park
+	}
 	s.mu.Lock()
 	defer s.mu.Unlock()
 	s.fetch++
@@ -258,6 +267,7 @@ func runCase(t *testing.T) func(Case) pbt.Result {
 			var srcs []*source
 			var psrcs []pcache.ProviderSource
 			var dlog []delivery
+			nUnknown := 0
 			for i := 0; i < c.NSrc; i++ {
 				s := &source{idx: i, content: map[int]rec{}, log: &dlog}
 				srcs = append(srcs, s)
@@ -535,6 +545,65 @@ func runCase(t *testing.T) func(Case) pbt.Result {
 					if !completedRefresh(i, s, dlB, nil) {
 						return
 					}
+				case "refreshduringmiss":
+					// a lookup of an ID no source knows is parked inside source 0 (it holds the cache's write
+					// lock); a Refresh is issued meanwhile and both finish once the source answers
+					dlog = nil
+					unknown := pids[150+nUnknown%40]
+					nUnknown++
+					park, sig := make(chan struct{}), make(chan struct{})
+					srcs[0].mu.Lock()
+					srcs[0].parkFetch, srcs[0].parkFetchSig = park, sig
+					srcs[0].mu.Unlock()
+					fa0 := 0
+					for _, src := range srcs {
+						src.mu.Lock()
+						fa0 += src.fetchAll
+						src.mu.Unlock()
+					}
+					var errG, errR error
+					var gotG *model.ProviderInfo
+					doneG, doneR := make(chan struct{}), make(chan struct{})
+					go func() { gotG, errG = pc.Get(context.Background(), unknown); close(doneG) }()
+					synctest.Wait()
+					select {
+					case <-sig:
+					default:
+						// the ID is already remembered as absent: no lookup reached the source
+						srcs[0].mu.Lock()
+						srcs[0].parkFetch, srcs[0].parkFetchSig = nil, nil
+						srcs[0].mu.Unlock()
+						<-doneG
+						break
+					}
+					go func() { errR = pc.Refresh(context.Background()); close(doneR) }()
+					synctest.Wait()
+					close(park)
+					<-doneG
+					<-doneR
+					kinds["refresh-during-miss"]++
+					if errG != nil || gotG != nil {
+						fail(i, s, fmt.Sprintf("Get(ID unknown to every source) = %v, %v", gotG, errG))
+						return
+					}
+					if errR != nil {
+						fail(i, s, "Refresh issued during a lookup miss returned "+errR.Error())
+						return
+					}
+					fa1 := 0
+					for _, src := range srcs {
+						src.mu.Lock()
+						fa1 += src.fetchAll
+						src.bgCalls = 0
+						src.mu.Unlock()
+					}
+					if fa1 == fa0 {
+						fail(i, s, "Refresh returned nil without asking any source: it waited for a lookup miss that was in progress and took that for a refresh; providers reported by the sources are not guaranteed visible")
+						return
+					}
+					if !completedRefresh(i, s, append([]delivery(nil), dlog...), nil) {
+						return
+					}
 				case "list":
 					for _, pi := range pc.List() {
 						if pi == nil {
@@ -629,7 +698,7 @@ func runCase(t *testing.T) func(Case) pbt.Result {
 			res.Classes = append(res.Classes, "has:"+k)
 		}
 		// non-trivial: a cancelled refresh followed by more steps, or a negative hit, an expiry, or a merge-threshold crossing (bulk set with many providers)
-		res.NonTrivial = kinds["cancelled"] > 0 || kinds["get-negative"] > 0 || kinds["expiry"] > 0 || (kinds["setmany"] > 0 && c.NPid > 8) || kinds["concurrent"] > 0
+		res.NonTrivial = kinds["cancelled"] > 0 || kinds["get-negative"] > 0 || kinds["expiry"] > 0 || (kinds["setmany"] > 0 && c.NPid > 8) || kinds["concurrent"] > 0 || kinds["refresh-during-miss"] > 0
 		res.Key = fmt.Sprintf("%d|%v", c.NSrc, ks) + fmt.Sprint(len(c.Steps), c.NPid, c.TTL)
 		return res
 	}
@@ -663,7 +732,7 @@ func pidIndex(id peer.ID) int {
 
 func TestC06_Model(t *testing.T) {
 	pbt.Run(t, pbt.Config{Prop: "C06", Unit: "TestC06_Model", TrackCurrent: true,
-		Rule: "histories of 5..40 steps over 1..3 in-memory sources and 2..40 providers (enough to cross the merge threshold both ways), TTL 1 s or 60 s on the bubble's virtual clock: set / bulk set / delete a provider at a source (every record carries a unique version tag and a drawn or absent advertisement time), make a source fail its next call, Refresh, Refresh cancelled by source i, Refresh issued while another Refresh is parked inside a source (completing, or cancelled part-way), Get (hit / miss / remembered-absent), List, advance time by TTL/2, TTL, 2*TTL+1; oracle: reference model of the statement with per-provider [lo, hi] bounds on the advertisement time (lo over completed operations, hi over all deliveries), exact TTL bounds on the virtual clock (either outcome only at equality or after partial deliveries), remembered-absent providers answered nil with zero Fetch calls, List without duplicates / nil / never-delivered providers, records never torn. Non-trivial: history with a cancelled or concurrent refresh, a remembered-absent hit, an expiry, or a bulk update over more than 8 providers; distinct by (sources, set of step kinds, sizes).",
+		Rule: "histories of 5..40 steps over 1..3 in-memory sources and 2..40 providers (enough to cross the merge threshold both ways), TTL 1 s or 60 s on the bubble's virtual clock: set / bulk set / delete a provider at a source (every record carries a unique version tag and a drawn or absent advertisement time), make a source fail its next call, Refresh, Refresh cancelled by source i, Refresh issued while another Refresh is parked inside a source (completing, or cancelled part-way), Refresh issued while a lookup of an ID no source knows is parked inside a source (the Refresh must ask the sources itself), Get (hit / miss / remembered-absent), List, advance time by TTL/2, TTL, 2*TTL+1; oracle: reference model of the statement with per-provider [lo, hi] bounds on the advertisement time (lo over completed operations, hi over all deliveries), exact TTL bounds on the virtual clock (either outcome only at equality or after partial deliveries), remembered-absent providers answered nil with zero Fetch calls, List without duplicates / nil / never-delivered providers, records never torn. Non-trivial: history with a cancelled or concurrent refresh, a remembered-absent hit, an expiry, or a bulk update over more than 8 providers; distinct by (sources, set of step kinds, sizes).",
 		Assumptions: []string{"a source that errors counts as not responding in that call", "automatic refresh is disabled here (C07 covers it); the constructor's preload counts as a refresh", "after a cancelled refresh, providers it delivered are 'uncertain' until the next completed refresh: only the identity and time bounds of a returned record are asserted"},
 	}, genCase, runCase(t))
 }
